@@ -1,0 +1,53 @@
+//go:build verif
+
+// Contracts for the deductive verifier in /verif (govc). Comments only.
+
+package ratelimit
+
+// L20.3: limit == bandwidth, burst == max(bandwidth/64, 4 MiB).
+//@ func newRateLimiter
+//@ property C20
+//@ requires bandwidth > 0
+//@ ensures result != nil && fresh(result) && limRate(result) == bandwidth
+//@ ensures limBurst(result) == max(bandwidth / 64, 4194304)
+
+// L20.1: the read limit throttles what the proxy sends to the client (tx), the
+// write limit what it accepts from the client (rx); 0 means no limiter at all.
+//@ func NewListener
+//@ property C20
+//@ ensures result != nil && result.Listener == l
+//@ ensures readLimit > 0 ==> result.txLimiter != nil && limRate(result.txLimiter) == readLimit && limBurst(result.txLimiter) >= 4194304
+//@ ensures readLimit <= 0 ==> result.txLimiter == nil
+//@ ensures writeLimit > 0 ==> result.rxLimiter != nil && limRate(result.rxLimiter) == writeLimit && limBurst(result.rxLimiter) >= 4194304
+//@ ensures writeLimit <= 0 ==> result.rxLimiter == nil
+//@ ensures result.rxLimiter == nil || result.rxLimiter != result.txLimiter
+
+// Every accepted connection shares the listener's two limiters.
+//@ func (*Listener).Accept
+//@ property C20
+//@ requires l != nil && l.Listener != nil
+//@ modifies *
+//@ ensures result1 == nil ==> result0 != nil && combinedOf(result0) is *Conn
+//@ ensures result1 == nil ==> combinedOf(result0).(*Conn).rxLimiter == old(l.rxLimiter) && combinedOf(result0).(*Conn).txLimiter == old(l.txLimiter)
+
+// L20.2: Read returns what the inner connection returned (same bytes, same
+// count), and charges exactly n tokens, once, to the receive limiter only.
+//@ func (*Conn).Read
+//@ property C20
+//@ requires c != nil && c.Conn != nil && (c.rxLimiter != nil ==> len(b) <= limBurst(c.rxLimiter))
+//@ modifies pos(c.Conn), rdFailed(c.Conn), b[*], waited(c.rxLimiter), nwaits(c.rxLimiter)
+//@ ensures 0 <= n && n <= len(b) && pos(c.Conn) == old(pos(c.Conn)) + n
+//@ ensures forall i int :: 0 <= i && i < n ==> b[i] == stream(c.Conn)[old(pos(c.Conn)) + i]
+//@ ensures n > 0 && c.rxLimiter != nil ==> waited(c.rxLimiter) == old(waited(c.rxLimiter)) + n && nwaits(c.rxLimiter) == old(nwaits(c.rxLimiter)) + 1
+//@ ensures n <= 0 && c.rxLimiter != nil ==> waited(c.rxLimiter) == old(waited(c.rxLimiter))
+//@ ensures c.txLimiter != nil && c.txLimiter != c.rxLimiter ==> waited(c.txLimiter) == old(waited(c.txLimiter))
+
+//@ func (*Conn).Write
+//@ property C20
+//@ requires c != nil && c.Conn != nil && (c.txLimiter != nil ==> len(b) <= limBurst(c.txLimiter))
+//@ modifies wlen(c.Conn), wdata, wrFailed(c.Conn), waited(c.txLimiter), nwaits(c.txLimiter)
+//@ ensures 0 <= n && n <= len(b) && wlen(c.Conn) == old(wlen(c.Conn)) + n
+//@ ensures forall i int :: 0 <= i && i < n ==> wdata(c.Conn, old(wlen(c.Conn)) + i) == b[i]
+//@ ensures n > 0 && c.txLimiter != nil ==> waited(c.txLimiter) == old(waited(c.txLimiter)) + n && nwaits(c.txLimiter) == old(nwaits(c.txLimiter)) + 1
+//@ ensures n <= 0 && c.txLimiter != nil ==> waited(c.txLimiter) == old(waited(c.txLimiter))
+//@ ensures c.rxLimiter != nil && c.rxLimiter != c.txLimiter ==> waited(c.rxLimiter) == old(waited(c.rxLimiter))
